@@ -246,7 +246,9 @@ def model_inputs(ob):
 def do_replay(mod, run, ob):
     prop = run.prop
     os.makedirs(os.path.join(ROOT, 'replays'), exist_ok=True)
-    path = os.path.join(ROOT, 'replays', '%s-%s-%s.json' % (prop, slug(ob.info.get('contract', '')), slug(ob.name + '-' + str(ob.info.get('site', '')))))
+    full = ob_fullname(prop, ob) + '|' + str(ob.info.get('site', '')) + '|' + str(ob.info.get('config', ''))
+    path = os.path.join(ROOT, 'replays', '%s-%s-%s-%s.json' % (prop, slug(ob.info.get('contract', ''))[:60], slug(ob.name + '-' + str(ob.info.get('site', '')))[:60],
+                                                                 hashlib.sha1(full.encode()).hexdigest()[:8]))
     ins = model_inputs(ob)
     data = {'property': prop, 'obligation': ob_fullname(prop, ob), 'function': ob.info.get('fn'), 'site': ob.info.get('site'),
             'where': ob.where, 'config': ob.info.get('config'), 'backend': ob.backend,
